@@ -36,7 +36,7 @@ func c01Prelude() []*rt.Node {
 func c01Points() []PointSpec {
 	return []PointSpec{
 		{Meas: "m"},
-		{Meas: "m", Tags: map[string]string{"t1": "tv"}, Fields: map[string]any{"message": "hello 123", "fi": int64(7), "ff": 1.5, "fs": "str", "fb": true, "fx": "caf\xe9",
+		{Meas: "m", Tags: map[string]string{"t1": "tv", "t2": "second tag", "t3": ""}, Fields: map[string]any{"message": "hello 123", "fi": int64(7), "ff": 1.5, "fs": "str", "fb": true, "fx": "caf\xe9",
 			// values of Go types a host may hand over: typed and untyped collections, small numeric types
 			"fsl": []string{"a", "b"}, "fms": map[string]string{"k": "v"}, "fby": []byte("ab"), "far": [2]int{1, 2}, "fl": []any{int64(1), "a"}, "fm": map[string]any{"k": int64(1)},
 			"fu8": uint8(200), "ff32": float32(1.5), "fi32": int32(-5), "fu64": uint64(1 << 63)}},
